@@ -7,18 +7,25 @@ import CtyModel.Lemmas.RefineGamma
 namespace CtyModel
 namespace Refine
 
+variable [ExactOracle]
+
+omit [ExactOracle] in
 theorem den_rangeInclusive (lo hi : NumArg) (x : Conc) :
     den (.numRangeInclusive lo hi) x = (den (.numLower lo true) x && den (.numUpper hi true) x) := by
   cases x <;> rfl
 
+omit [ExactOracle] in
 theorem den_collectionLength (n : Int) (x : Conc) :
     den (.collectionLength n) x = (den (.lenLower n) x && den (.lenUpper n) x) := by
   cases x <;> simp [den]
   rw [Bool.eq_iff_iff]; simp; omega
 
+omit [ExactOracle] in
 theorem dropped_lower_incl (a : NumArg) : (RefineCall.numLower a true).dropped = false := by cases a <;> rfl
+omit [ExactOracle] in
 theorem dropped_upper_incl (a : NumArg) : (RefineCall.numUpper a true).dropped = false := by cases a <;> rfl
 
+omit [ExactOracle] in
 /-- two successive non-dropped calls amount to the conjunction of their constraints -/
 theorem Effect.comp {b b1 b2 : Builder} {c1 c2 c : RefineCall} (e1 : Effect b b1 c1) (e2 : Effect b1 b2 c2)
     (h1 : c1.dropped = false) (h2 : c2.dropped = false) (hc : c.dropped = false)
@@ -78,6 +85,7 @@ theorem run_dyn {b : Builder} (hd : b.isDyn = true) (cs : List RefineCall) : run
   | nil => rfl
   | cons c cs ih => simp [run, step_dyn hd, Res.bind, ih]
 
+omit [ExactOracle] in
 /-- narrowing, for one call -/
 theorem Effect.narrows {b b' : Builder} {c : RefineCall} (e : Effect b b' c) (x : Conc) (h : γB b' x = true) :
     γB b x = true := by
